@@ -51,14 +51,32 @@ def run(R, ctx):
         n += 1
     R.check('R11.1', f"{ob.path}|bufwriter-iff-buffersize", not bad and n >= 2, "BufWriter iff buffersize() is Some", f"open_log_file: {bad}", where=ob.loc())
     # R11.2
-    sync_roots = [p for p in f.bodies if re.search(r'^writers::file_log_writer::state_handle::StateHandle::write::\{closure#0\}$', p)]
-    if not sync_roots:
+    # the synchronous record path = every path through a format-calling body of the file writer that hands the record to
+    # State::write_buffer: on such a path nothing is sent to a channel and no thread is spawned (path rows, so that the
+    # async arm may live in the same body), and write_buffer itself defers nothing except the (stopped) cleanup
+    STOPS = {'writers::file_log_writer::state::list_and_cleanup::remove_or_compress_too_old_logfiles',
+             'writers::file_log_writer::state::list_and_cleanup::start_cleanup_thread'}
+    EFF2 = [c01.FMT, r'State::write_buffer$', r'Sender::<T>::(send|try_send)$', r'^std::thread::Builder::spawn$|^std::thread::spawn$']
+    nsync = 0
+    for eb in c01.emission_bodies(ctx):
+        rows = FDI(f, effects=EFF2, no_inline=[r'State::write_buffer$', r'util::eprint_err$', r'pop_buffer$']).run(eb.path)
+        bad = None
+        for r in rows:
+            if r.undecided:
+                raise CheckError(f"R11.2 {eb.path}: UNDECIDED {r.undecided}")
+            names = [e[0].split('::')[-1] for e in r.effects]
+            if 'write_buffer' in names:
+                nsync += 1
+                if any(n_ in ('send', 'try_send', 'spawn') for n_ in names):
+                    bad = f"a path both writes synchronously and defers work ({names})"
+        R.check('R11.2', f"{root_fn(eb.path)}|no-deferred-work", not bad, "no channel send / thread spawn on a path that writes synchronously",
+                f"the synchronous record path defers work ({bad}): the record is not in the file when log() returns", where=eb.loc())
+    if nsync < 2:
         raise CheckError('sync record path not found')
-    for p in sync_roots:
-        hits = cg.reaches_effect(p, lambda n_, t: effect_class(n_) in ('CHAN_SEND', 'SPAWN'), stop={'writers::file_log_writer::state::list_and_cleanup::remove_or_compress_too_old_logfiles',
-                                                                                                      'writers::file_log_writer::state::list_and_cleanup::start_cleanup_thread'})
-        R.check('R11.2', f"{p}|no-deferred-work", not hits, "no channel send / thread spawn between format and write_all",
-                f"the synchronous record path defers work ({hits[:2]}): the record is not in the file when log() returns", where=f.bodies[p].loc())
+    wb = ctx.body(r'^writers::file_log_writer::state::State::write_buffer$')
+    hits = cg.reaches_effect(wb.path, lambda n_, t: effect_class(n_) in ('CHAN_SEND', 'SPAWN'), stop=STOPS)
+    R.check('R11.2', f"{wb.path}|no-deferred-work", not hits, "write_buffer sends nothing and spawns nothing (cleanup thread apart)",
+            f"State::write_buffer defers work ({hits[:2]}): the record is not in the file when log() returns", where=wb.loc())
     c01.sink_table(R, ctx, 'R11.2')
     # R11.3
     c01.order_rules(_To(R, 'R11.3'), ctx)
